@@ -110,3 +110,11 @@ for _u in ("years", "months", "days", "hours", "minutes", "seconds", "microsecon
     SLOTS["terms.Interval"][_u] = "int"
 OPTIONAL_ATTRS = {"terms.Interval": {"years", "months", "days", "hours", "minutes", "seconds", "microseconds",
                                      "quarters", "weeks"}}
+
+
+# Class invariant facts (python expressions over `self`, evaluated by the verifier's own engine and assumed for the
+# pre-state; established by the builders that set the attributes involved).
+FACTS = {
+    "terms.AnalyticFunction": ["self._include_over or (len(self._partition) == 0 and len(self._orderbys) == 0)"],
+    "terms.AggregateFunction": ["self._include_filter or len(self._filters) == 0"],
+}
